@@ -294,7 +294,9 @@ def _structured_obj(I: Interp, ci: ClassInfo, name: str, spans: Dict[int, tuple]
     sm = new_seqmatch(I.p, rm, rec)
     obj = AObj(ci, {"record": rec, "seq": ASeq("Seq", rec.pieces), "cutter": AEnzymeV(five_prime)}, name=name)
     # the class's own _match is what the structure pattern matched (its screen is C04/C17 business)
-    obj.attrs["_match"] = sm
+    from .roles import match_slot
+
+    obj.attrs[match_slot(I.p)] = sm
     return obj
 
 
@@ -329,7 +331,9 @@ def frag_hooks(p) -> dict:
 
         def search(I, f, args, kwargs):
             I.path.effects.append(("raw-search",))
-            return I.kernel_args[0].attrs.get("_match")
+            from .roles import match_slot
+
+            return I.kernel_args[0].attrs.get(match_slot(p))
 
         hooks[regex_getter(p).qualname] = get_regex
         from .roles import search_entries
@@ -343,7 +347,10 @@ def frag_hooks(p) -> dict:
 
 def vetted(o, name="x") -> bool:
     """the accessor read the object's vetted `_match` (structure found *and* screened), not a match it obtained otherwise"""
-    return any(e[0] == "getattr" and e[1] == name and e[2] == "_match" for e in o.path.effects) and not any(e[0] == "raw-search" for e in o.path.effects)
+    from .roles import match_slot
+
+    slot = match_slot(o.interp.p) if getattr(o, "interp", None) is not None else "_match"
+    return any(e[0] == "getattr" and e[1] == name and e[2] == slot for e in o.path.effects) and not any(e[0] == "raw-search" for e in o.path.effects)
 
 
 def k7_fragments(ctx, pid: str, which=("K7", "K8", "K9", "K10")):
@@ -455,7 +462,8 @@ def _is_source_feature(I: Interp, f, L, name: str) -> bool:
         return False
     st, en = loc.fields.get("start"), loc.fields.get("end")
     try:
-        if Aff.of(st) != ZERO or Aff.of(en) != L:
+        # (equal under the facts of the region: a length computed as end - start and one computed piece by piece agree)
+        if not I.aff_eq(Aff.of(st), ZERO) or not I.aff_eq(Aff.of(en), Aff.of(L)):
             return False
     except TypeError:
         return False
